@@ -75,7 +75,7 @@ Definition dec_rbuf (l : list N) : option ((view * root) * list N) :=
   | shape :: len :: cap :: a :: b :: r =>
     if nn len <=? nn cap then
       let? v := mk_view (nn shape) (nn a) (nn b) (nn len) in
-      Some ((v, mkroot KVec (canaries_from 0 (nn cap)) (nn len)), r)
+      Some ((v, mkroot KVec (canaries_from 0 (nn cap)) (nn len) 0), r)
     else None
   | _ => None
   end.
@@ -87,14 +87,14 @@ Definition dec_wbuf (l : list N) : option ((view * root) * list N) :=
     let? '(bs, r') := dec_bytes r in
     let n := length bs in
     let? v := mk_view (nn shape) (nn a) (nn b) n in
-    Some ((v, mkroot KVec (bs ++ canaries_from n (nn extra)) n), r')
+    Some ((v, mkroot KVec (bs ++ canaries_from n (nn extra)) n 0), r')
   | _ => None
   end.
 
 Definition dec_rmember (l : list N) : option (root * list N) :=
   match l with
   | len :: cap :: r =>
-    if nn len <=? nn cap then Some (mkroot KVec (canaries_from 0 (nn cap)) (nn len), r) else None
+    if nn len <=? nn cap then Some (mkroot KVec (canaries_from 0 (nn cap)) (nn len) 0, r) else None
   | _ => None
   end.
 Definition dec_rvec (l : list N) : option (list root * list N) :=
@@ -104,7 +104,7 @@ Definition dec_wmember (l : list N) : option (root * list N) :=
   match l with
   | extra :: r =>
     let? '(bs, r') := dec_bytes r in
-    Some (mkroot KVec (bs ++ canaries_from (length bs) (nn extra)) (length bs), r')
+    Some (mkroot KVec (bs ++ canaries_from (length bs) (nn extra)) (length bs) 0, r')
   | _ => None
   end.
 Definition dec_wvec (l : list N) : option (list root * list N) :=
